@@ -119,3 +119,33 @@ def register(reg):
         "Trusted: the constructors themselves (their correctness is C03/C04's subject). Mesh support points are compared by "
         "projection (ties).",
         "DESIGN.md section 4 C14")
+
+    reg("C06",
+        "executable-model monitor over histories of joint/pose changes on generated URDF robots: pose model (transform manager), brute-force AABB overlap model, brute-force narrow-phase matrix with must/may sets for self collision",
+        "400 (quick) / 6 000 (thorough) generated robots (chains and branching trees with shuffled declaration order, "
+        "sphere/box/cylinder geometry from URDF, capsule/cone/mesh colliders attached via add_collider, asymmetric generated and "
+        "user-edited whitelists) x 3-20 steps of set_joint/add_transform + update_collider_poses: every collider pose equals "
+        "the transform manager, the three broad-phase queries equal the all-pairs closed-interval test on current aabb()s "
+        "(incl. empty and second BVH), detect marks must <= marked <= may and detect_any == exists must.",
+        "Trusted: pytransform3d's transform manager as pose model; the library's gjk_intersection as narrow phase of the "
+        "brute-force matrix (C02 covers it). Flat (zero-thickness) colliders are outside C06's quantifier (C05 covers the tree).",
+        "DESIGN.md section 4 C06")
+    reg("C10",
+        "runtime oracle monitor on all 34 functions of distance3d.distance (export list read from the module): independent point-to-primitive distances judge membership of the returned points, consistency and the d = 0 clause; exceptions and NaN are violations",
+        "14 000 (quick) / 350 000 (thorough) calls, 400 / 10 000 per function: primitives generated in a shared frame on a "
+        "half-size lattice (exactly parallel, perpendicular, coplanar, touching, contained, coincident placements), positions "
+        "just off degenerate ones (1e-10..1e-2), sliver triangles, contact/piercing class. Judged: finite d >= 0, both points on "
+        "their primitives (1e-9 L), | |p1-p2| - d | <= 1e-6 L, d == 0 => same point. Known: K4 (disk_to_disk), K5 "
+        "(point_to_circle near the axis), K6 (ellipsoid surface from inside), K17 (epsilon band accuracy).",
+        "Trusted: closed-form / NNLS point distances in verif/prims.py. Return order (d, point on first, point on second) as "
+        "documented.",
+        "DESIGN.md section 4 C10")
+    reg("C11",
+        "runtime oracle monitor on the returned distances against reference minima: closed forms, support values, 1-D ternary search of exact point distances, feasible pairs of the reference solver, exhaustive circle sampling with golden-section refinement",
+        "same workload as C10; a violation is a returned d that exceeds a distance attained by an explicit pair of points by "
+        "more than 1e-6 L (5e-3 L for line_to_circle). Inputs inside the documented epsilon band (|cos| or |sin| of "
+        "characteristic directions in (0,1e-2)) are executed but not judged. Known: K3 (line_segment_to_circle end-point "
+        "clamp), K4 (disk_to_disk heuristic), K5, K6, K18 (sliver triangles).",
+        "Trusted: reference values in verif/prims.py:reference (each is attained by a feasible pair or is a closed form, so "
+        "'d above the reference' is sound).",
+        "DESIGN.md section 4 C11")
